@@ -53,3 +53,66 @@ func vpH_C16_intops() {
 		vpAssert("ge", x.Operator(GreaterThanOrEqual, y).IsTruthy() == (a >= b))
 	}
 }
+
+func init() { vpRegister("vpH_C16_containers", vpH_C16_containers) }
+
+func vpIntList(tag string, maxN int) (pyList, []int) {
+	n := vpChoice(tag+".len", maxN+1)
+	l := make(pyList, n)
+	vals := make([]int, n)
+	for i := range l {
+		vals[i] = vpNondetIntRange(tag, 0, 3)
+		l[i] = pyInt(vals[i])
+	}
+	return l, vals
+}
+
+// vpH_C16_containers: list comparison is Python's lexicographic order; list + and
+// dict | build fresh values that do not alias their operands.
+func vpH_C16_containers() {
+	n := vpBound("items")
+	a, av := vpIntList("a", n)
+	b, bv := vpIntList("b", n)
+	// Python: lexicographic, shorter prefix is smaller
+	want := false
+	decided := false
+	for i := 0; i < len(av) && i < len(bv) && !decided; i++ {
+		if av[i] != bv[i] {
+			want, decided = av[i] < bv[i], true
+		}
+	}
+	if !decided {
+		want = len(av) < len(bv)
+	}
+	vpAssert("list-less-than-is-lexicographic", a.Operator(LessThan, b).IsTruthy() == want)
+
+	sum := a.Operator(Add, b).(pyList)
+	vpAssert("list-add-length", len(sum) == len(a)+len(b))
+	if len(sum) > 0 {
+		sum[0] = pyInt(9)
+		if len(a) > 0 {
+			vpAssert("list-add-does-not-alias-left", a[0] == pyInt(av[0]))
+		} else {
+			vpAssert("list-add-does-not-alias-right", b[0] == pyInt(bv[0]))
+		}
+	}
+	d1, d2 := pyDict{}, pyDict{}
+	if vpNondetBool("d1-has-x") {
+		d1["x"] = pyInt(1)
+	}
+	if vpNondetBool("d2-has-x") {
+		d2["x"] = pyInt(2)
+	}
+	if vpNondetBool("d2-has-y") {
+		d2["y"] = pyInt(3)
+	}
+	n1, n2 := len(d1), len(d2)
+	u := d1.Operator(Union, d2).(pyDict)
+	if v, ok := d2["x"]; ok {
+		vpAssert("union-right-wins", u["x"] == v)
+	} else if v, ok := d1["x"]; ok {
+		vpAssert("union-keeps-left", u["x"] == v)
+	}
+	u["z"] = pyInt(7)
+	vpAssert("union-is-a-fresh-dict", len(d1) == n1 && len(d2) == n2)
+}
